@@ -331,6 +331,7 @@ def run_child(cfg: dict, workdir: str, name: str, hashseed: int, runs: list[dict
         result = json.loads(proc.stdout.decode())
         log = srv.snapshot()
     out: dict = {}
+    orphans: list = []
     tag, phase = None, None
     for r in log:
         if r.path == "/__verif__/marker":
@@ -349,10 +350,14 @@ def run_child(cfg: dict, workdir: str, name: str, hashseed: int, runs: list[dict
         if tag is None or phase is None:
             if tag is not None:
                 out[tag]["outside"] += 1
+            else:
+                orphans.append((r.method, r.target, r.status))
             continue
         out[tag]["phases"][phase].append(r)
     for r in result["runs"]:
         out[r["tag"]]["failures"] = r["failures"]
+        out[r["tag"]]["output_tail"] = r.get("output_tail", "")
+        out[r["tag"]]["orphans"] = orphans        # requests received outside every run of this child (after a run was reported finished)
     return out
 
 
